@@ -56,7 +56,7 @@ def gen_abstract(rng, guards, tier='quick'):
         typ = weighted(rng, [(5, 'or'), (5, 'and'), (3, 'defense'), (1, 'exist'), (1, 'notExist')])
         d = {'type': typ, 'name': f's{i}'}
         if typ == 'defense':
-            d['defense_status'] = rng.choice([0.0, 1.0, 1.0, 0.0, 0.5])
+            d['defense_status'] = rng.choice([0.0, 1.0, 1.0, 0.0, 0.5, 0.9999999999999999, 1e-12])
             d['ttc'] = copy.deepcopy(rng.choice([TTC_NONE, TTC_EN, TTC_DIS, TTC_BER]))
         elif typ in ('exist', 'notExist'):
             d['existence_status'] = rng.random() < 0.5
@@ -202,6 +202,8 @@ class World(BaseWorld):
                 comp = [i for i in range(n) if rng.random() < 0.3]
             op = {'op': 'analyse', 'mat': rng.choice(['hand', 'hand', 'dict']),
                   'perm': perm, 'eperm': eperm, 'pre_eval': pre, 'compromised': comp}
+            if op['mat'] == 'dict' and rng.random() < 0.3:
+                op['drop_labels'] = True
             if op['mat'] == 'hand' and n >= 2 and rng.random() < 0.25:
                 # the graph grows: the first k nodes are analysed on their own, the labels
                 # are put back to their defaults, the other nodes are added, then the analysis
@@ -335,7 +337,17 @@ class World(BaseWorld):
         n = len(steps)
         perm = [i for i in op['perm'] if i < n] + [i for i in range(n) if i not in op['perm']]
         d2 = {'attack_steps': {steps[i][0]: steps[i][1] for i in perm}, 'attackers': {}}
+        if op.get('drop_labels'):
+            # a file that somebody wrote by hand (or an older release): no label entries -
+            # the steps are at their defaults
+            for v in d2['attack_steps'].values():
+                v.pop('is_viable', None)
+                v.pop('is_necessary', None)
+            self.count('probe:graph_dict_without_label_entries')
         o = call(self.AttackGraph._from_dict, d2)
+        if o.raised and op.get('drop_labels'):
+            raise Violation('C08.parentless', f'_from_dict of a graph without is_viable / is_necessary '
+                                              f'entries raised {o.exc!r}')
         if o.raised:
             raise SetupRejected('c08:_from_dict:' + o.exc_name())
         g = o.value
